@@ -212,20 +212,12 @@ pub fn c10_embedded_push_n4() {
     embedded_uri::<PUSH, 4, 2, 8>(covers_push)
 }
 
-// @h prop=C10,C04 tier=thorough kind=check timeout=2400 mem=16 bound="UriRefBuf text <= 5 bytes, segment <= 2 bytes" encodes="RiRefBufImpl::path_mut;PathMutImpl::{new,push,first_segment_offset};utils::{replace,allocate_range};Deref for PathMut"
+// @h prop=C10 tier=thorough kind=check timeout=2400 mem=16 bound="UriRefBuf text <= 5 bytes, segment <= 2 bytes" encodes="RiRefBufImpl::path_mut;PathMutImpl::{new,push,first_segment_offset};utils::{replace,allocate_range};Deref for PathMut"
 #[cfg_attr(kani, kani::proof)]
 #[cfg_attr(kani, kani::unwind(10))]
 #[cfg_attr(kani, kani::stub(std::vec::Vec::resize, crate::stubs::vec_resize))]
 pub fn c10_embedded_push_n5() {
     embedded_uri::<PUSH, 5, 2, 9>(covers_push)
-}
-
-// @h prop=C10,C04 tier=thorough kind=check timeout=2400 mem=16 bound="UriRefBuf text <= 6 bytes, segment <= 2 bytes" encodes="RiRefBufImpl::path_mut;PathMutImpl::{new,push,first_segment_offset};utils::{replace,allocate_range};Deref for PathMut"
-#[cfg_attr(kani, kani::proof)]
-#[cfg_attr(kani, kani::unwind(11))]
-#[cfg_attr(kani, kani::stub(std::vec::Vec::resize, crate::stubs::vec_resize))]
-pub fn c10_embedded_push_n6() {
-    embedded_uri::<PUSH, 6, 2, 10>(covers_push)
 }
 
 // @h prop=C10,C04 tier=quick kind=check timeout=2400 mem=12 bound="UriRefBuf text <= 4 bytes" encodes="PathMutImpl::{pop,push};PathImpl::last;utils::replace"
@@ -236,20 +228,12 @@ pub fn c10_embedded_pop_n4() {
     embedded_uri::<POP, 4, 0, 7>(covers_pop)
 }
 
-// @h prop=C10,C04 tier=thorough kind=check timeout=2400 mem=16 bound="UriRefBuf text <= 5 bytes" encodes="PathMutImpl::{pop,push};PathImpl::last;utils::replace"
+// @h prop=C10 tier=thorough kind=check timeout=2400 mem=16 bound="UriRefBuf text <= 5 bytes" encodes="PathMutImpl::{pop,push};PathImpl::last;utils::replace"
 #[cfg_attr(kani, kani::proof)]
 #[cfg_attr(kani, kani::unwind(9))]
 #[cfg_attr(kani, kani::stub(std::vec::Vec::resize, crate::stubs::vec_resize))]
 pub fn c10_embedded_pop_n5() {
     embedded_uri::<POP, 5, 0, 8>(covers_pop)
-}
-
-// @h prop=C10,C04 tier=thorough kind=check timeout=2400 mem=16 bound="UriRefBuf text <= 6 bytes" encodes="PathMutImpl::{pop,push};PathImpl::last;utils::replace"
-#[cfg_attr(kani, kani::proof)]
-#[cfg_attr(kani, kani::unwind(10))]
-#[cfg_attr(kani, kani::stub(std::vec::Vec::resize, crate::stubs::vec_resize))]
-pub fn c10_embedded_pop_n6() {
-    embedded_uri::<POP, 6, 0, 9>(covers_pop)
 }
 
 // @h prop=C10,C04:thorough tier=quick kind=check timeout=2400 mem=12 bound="UriRefBuf text <= 5 bytes" encodes="PathMutImpl::clear;utils::replace"
@@ -260,22 +244,6 @@ pub fn c10_embedded_clear_n5() {
     embedded_uri::<CLEAR, 5, 0, 6>(covers_clear)
 }
 
-// @h prop=C10,C04 tier=thorough kind=check timeout=2400 mem=16 bound="UriRefBuf text <= 6 bytes" encodes="PathMutImpl::clear;utils::replace"
-#[cfg_attr(kani, kani::proof)]
-#[cfg_attr(kani, kani::unwind(9))]
-#[cfg_attr(kani, kani::stub(std::vec::Vec::resize, crate::stubs::vec_resize))]
-pub fn c10_embedded_clear_n6() {
-    embedded_uri::<CLEAR, 6, 0, 7>(covers_clear)
-}
-
-// @h prop=C10,C04 tier=thorough kind=check timeout=2400 mem=16 bound="UriRefBuf text <= 7 bytes" encodes="PathMutImpl::clear;utils::replace"
-#[cfg_attr(kani, kani::proof)]
-#[cfg_attr(kani, kani::unwind(10))]
-#[cfg_attr(kani, kani::stub(std::vec::Vec::resize, crate::stubs::vec_resize))]
-pub fn c10_embedded_clear_n7() {
-    embedded_uri::<CLEAR, 7, 0, 8>(covers_clear)
-}
-
 // @h prop=C10,C04 tier=thorough kind=check timeout=3000 mem=24 bound="UriRefBuf text <= 4 bytes, segment <= 2 bytes (incl. '.', '..')" encodes="uri::PathMut::symbolic_push;PathMutImpl::{symbolic_push,pop,push}"
 #[cfg_attr(kani, kani::proof)]
 #[cfg_attr(kani, kani::unwind(10))]
@@ -284,23 +252,7 @@ pub fn c10_embedded_symbolic_push_n4() {
     embedded_uri::<SYMBOLIC_PUSH, 4, 2, 9>(covers_push)
 }
 
-// @h prop=C10,C04 tier=thorough kind=check timeout=3000 mem=26 bound="UriRefBuf text <= 5 bytes, segment <= 2 bytes (incl. '.', '..')" encodes="uri::PathMut::symbolic_push;PathMutImpl::{symbolic_push,pop,push}"
-#[cfg_attr(kani, kani::proof)]
-#[cfg_attr(kani, kani::unwind(11))]
-#[cfg_attr(kani, kani::stub(std::vec::Vec::resize, crate::stubs::vec_resize))]
-pub fn c10_embedded_symbolic_push_n5() {
-    embedded_uri::<SYMBOLIC_PUSH, 5, 2, 10>(covers_push)
-}
-
-// @h prop=C10,C04 tier=thorough kind=check timeout=5400 mem=30 bound="UriRefBuf text <= 6 bytes, segment <= 2 bytes (incl. '.', '..')" encodes="uri::PathMut::symbolic_push;PathMutImpl::{symbolic_push,pop,push}"
-#[cfg_attr(kani, kani::proof)]
-#[cfg_attr(kani, kani::unwind(12))]
-#[cfg_attr(kani, kani::stub(std::vec::Vec::resize, crate::stubs::vec_resize))]
-pub fn c10_embedded_symbolic_push_n6() {
-    embedded_uri::<SYMBOLIC_PUSH, 6, 2, 11>(covers_push)
-}
-
-// @h prop=C10,C04 tier=thorough kind=check timeout=3000 mem=20 bound="UriRefBuf text <= 5 bytes, appended path <= 4 bytes" encodes="PathMutImpl::symbolic_append over SegmentsImpl;symbolic_push;pop;push"
+// @h prop=C10 tier=thorough kind=check timeout=3000 mem=20 bound="UriRefBuf text <= 5 bytes, appended path <= 4 bytes" encodes="PathMutImpl::symbolic_append over SegmentsImpl;symbolic_push;pop;push"
 #[cfg_attr(kani, kani::proof)]
 #[cfg_attr(kani, kani::unwind(13))]
 #[cfg_attr(kani, kani::stub(std::vec::Vec::resize, crate::stubs::vec_resize))]
@@ -353,22 +305,6 @@ pub fn c10_pathbuf_push_n4() {
     standalone_uri::<PUSH, 4, 2, 8>(covers_standalone_push)
 }
 
-// @h prop=C10,C04 tier=thorough kind=check timeout=2400 mem=16 bound="uri::PathBuf text <= 5 bytes, segment <= 2 bytes" encodes="uri::PathBuf::push;PathMutImpl::{from_path,push}"
-#[cfg_attr(kani, kani::proof)]
-#[cfg_attr(kani, kani::unwind(10))]
-#[cfg_attr(kani, kani::stub(std::vec::Vec::resize, crate::stubs::vec_resize))]
-pub fn c10_pathbuf_push_n5() {
-    standalone_uri::<PUSH, 5, 2, 9>(covers_standalone_push)
-}
-
-// @h prop=C10,C04 tier=thorough kind=check timeout=2400 mem=16 bound="uri::PathBuf text <= 6 bytes, segment <= 2 bytes" encodes="uri::PathBuf::push;PathMutImpl::{from_path,push}"
-#[cfg_attr(kani, kani::proof)]
-#[cfg_attr(kani, kani::unwind(11))]
-#[cfg_attr(kani, kani::stub(std::vec::Vec::resize, crate::stubs::vec_resize))]
-pub fn c10_pathbuf_push_n6() {
-    standalone_uri::<PUSH, 6, 2, 10>(covers_standalone_push)
-}
-
 // @h prop=C10,C04:thorough tier=quick kind=check timeout=2400 mem=12 bound="uri::PathBuf text <= 4 bytes" encodes="uri::PathBuf::pop;PathMutImpl::pop"
 #[cfg_attr(kani, kani::proof)]
 #[cfg_attr(kani, kani::unwind(8))]
@@ -377,44 +313,12 @@ pub fn c10_pathbuf_pop_n4() {
     standalone_uri::<POP, 4, 0, 7>(covers_standalone_pop)
 }
 
-// @h prop=C10,C04 tier=thorough kind=check timeout=2400 mem=16 bound="uri::PathBuf text <= 5 bytes" encodes="uri::PathBuf::pop;PathMutImpl::pop"
-#[cfg_attr(kani, kani::proof)]
-#[cfg_attr(kani, kani::unwind(9))]
-#[cfg_attr(kani, kani::stub(std::vec::Vec::resize, crate::stubs::vec_resize))]
-pub fn c10_pathbuf_pop_n5() {
-    standalone_uri::<POP, 5, 0, 8>(covers_standalone_pop)
-}
-
-// @h prop=C10,C04 tier=thorough kind=check timeout=2400 mem=16 bound="uri::PathBuf text <= 6 bytes" encodes="uri::PathBuf::pop;PathMutImpl::pop"
-#[cfg_attr(kani, kani::proof)]
-#[cfg_attr(kani, kani::unwind(10))]
-#[cfg_attr(kani, kani::stub(std::vec::Vec::resize, crate::stubs::vec_resize))]
-pub fn c10_pathbuf_pop_n6() {
-    standalone_uri::<POP, 6, 0, 9>(covers_standalone_pop)
-}
-
-// @h prop=C10,C04 tier=thorough kind=check timeout=3000 mem=20 bound="uri::PathBuf text <= 6 bytes, segment <= 2 bytes" encodes="uri::PathBuf::symbolic_push"
-#[cfg_attr(kani, kani::proof)]
-#[cfg_attr(kani, kani::unwind(12))]
-#[cfg_attr(kani, kani::stub(std::vec::Vec::resize, crate::stubs::vec_resize))]
-pub fn c10_pathbuf_symbolic_push_n6() {
-    standalone_uri::<SYMBOLIC_PUSH, 6, 2, 11>(covers_standalone_push)
-}
-
-// @h prop=C10,C04 tier=thorough kind=check timeout=3000 mem=20 bound="uri::PathBuf text <= 5 bytes, appended path <= 4 bytes" encodes="uri::PathBuf::symbolic_append"
+// @h prop=C10 tier=thorough kind=check timeout=3000 mem=20 bound="uri::PathBuf text <= 5 bytes, appended path <= 4 bytes" encodes="uri::PathBuf::symbolic_append"
 #[cfg_attr(kani, kani::proof)]
 #[cfg_attr(kani, kani::unwind(13))]
 #[cfg_attr(kani, kani::stub(std::vec::Vec::resize, crate::stubs::vec_resize))]
 pub fn c10_pathbuf_symbolic_append_n5() {
     standalone_uri::<SYMBOLIC_APPEND, 5, 4, 12>(covers_standalone_push)
-}
-
-// @h prop=C10,C04 tier=thorough kind=check timeout=3000 mem=20 bound="uri::PathBuf text <= 7 bytes" encodes="uri::PathBuf::clear"
-#[cfg_attr(kani, kani::proof)]
-#[cfg_attr(kani, kani::unwind(10))]
-#[cfg_attr(kani, kani::stub(std::vec::Vec::resize, crate::stubs::vec_resize))]
-pub fn c10_pathbuf_clear_n7() {
-    standalone_uri::<CLEAR, 7, 0, 8>(covers_standalone_clear)
 }
 
 /// Two edits through ONE handle with symbolic op choice (push / pop / clear)
